@@ -417,7 +417,20 @@ def _termination(ctx, cg, reach, loops_floor=40):
                 for bb, idx, s in b.stmts():
                     rv = s.get("rv")
                     if bb in loop and rv and rv["k"] == "bin" and rv["op"] in ("SubWithOverflow", "AddWithOverflow", "Sub", "Add", "Shr") and "k" in rv["b"]:
-                        why = "counter"
+                        # ... a *counter*: the result goes back into the variable it was computed from (x = x + k), inside the loop.
+                        # `len + 28 > limit` in the loop's test is arithmetic with a constant, not progress.
+                        src = op_place(rv["a"])
+                        if src is None or len(s["p"]) != 1:
+                            continue
+                        res = s["p"][0]
+                        carried = {res}
+                        for _ in range(3):
+                            for b2, i2, s2 in b.stmts():
+                                r2 = s2.get("rv")
+                                if b2 in loop and r2 and r2["k"] == "use" and op_place(r2["op"]) and op_place(r2["op"])[0] in carried and len(s2["p"]) >= 1:
+                                    carried.add(s2["p"][0])
+                        if src[0] in carried:
+                            why = "counter"
             # (e) padding loop: runs while len(x) % k != 0 and appends to something each round
             if why is None:
                 grows = any(bb in loop and (callee_name(tm) or "").rsplit("::", 1)[-1] in ("push", "serialise", "extend_from_slice", "push_u8") for bb, tm in b.calls())
